@@ -136,6 +136,16 @@ CLAIMS = {
         'around the hole unchanged, all fragment tokens inside the element). Four wrapper-induced misparses found this way were repaired in /repo.',
    note='Trusted: Coq kernel/vm_compute; hand model Wrap.v tied by correspondence; CPython ast.parse and tokenize as reference; the EMB embedding table of py/props/C05.py as the definition of "full construct". No axioms.',
    design='DESIGN.md section 4 C05'),
+ 'C10': dict(
+   technique='Translator + Coq proof: effect paths of fst_raw.py (_reparse_raw / _reparse_raw_stmtlike / _reparse_raw_base) regenerated every run; all paths ordered (no may-raise atom after a live mutation) by computation, ordered => raise leaves the state untouched / completion performs every mutation, unordered => some failure pattern breaks atomicity; splice = put_src_is_spec; differential oracle against whole-file CPython parse',
+   text='Proved (closed): on every control-flow path of the raw reparse (calls inlined, try/except edges and the done flag followed) every atom that may raise precedes every atom that mutates the live tree or '
+        'source; for such paths any failure pattern that raises leaves the state version unchanged and a completed run performed all mutations; the check is exact (an unordered path has a breaking failure '
+        'pattern); a successful edit leaves the algebraic text splice. Partial: equality of the statement-level reparse with a whole-file parse, exceptions inside _put_src/_set_ast, root identity are decided '
+        'by the oracle: random sequences of put_src(reparse) on/off node boundaries and across statements, raw node puts and reparse() with valid, invalid, indentation-changing and statement-splitting text; '
+        'raise => source and ast.dump(with positions) unchanged and the splice is not a valid module; success => source == splice and tree == ast.parse incl. positions. Two defect families found this way '
+        'were repaired in /repo.',
+   note='Trusted: Coq kernel/vm_compute; translator py/py2v/gen_raweffects.py (fail-closed classification tables: which calls may raise / mutate live state / touch only the scratch copy); CPython parser as reference. No axioms.',
+   design='DESIGN.md section 4 C10'),
 }
 
 checks = []
